@@ -69,6 +69,25 @@ def gen_progs(rng, tier):
             p = conclib.Prog("c17%s%d" % (cname, i), cfg, setup, threads, mode)
             p.paths, p.cname = paths, cname
             progs.append(p)
+    # a write handle that OUTLIVED its file (the file was removed before the threads start: nothing is in the way, no
+    # removal is concurrent) is flushed / dropped by one thread while the others create directories under the same name
+    stale = {
+        "memstale": (["base mem", "fs base 0"], 0, ["createfile 0:j61", "hwrite 1000 78", "removefile 0:j61"], "explore 20000"),
+        "altstale": (["base mem", "fs base 0", "fs alt 0 " + vfx.hexs("/r")], 1,
+                     ["createdirall 0:j72", "createfile 1:j61", "hwrite 1001 78", "removefile 1:j61"], "explore 20000"),
+        "ovlstale": (["base mem", "base mem", "fs base 0", "fs base 1", "fs ovl 2 0 - 1 -"], 2,
+                     ["createfile 2:j61", "hwrite 1000 78", "removefile 2:j61"], "pbound 2,6000"),
+    }
+    for cname, (cfg, target, setup, mode) in stale.items():
+        h = 1001 if cname == "altstale" else 1000
+        for i, (first, paths) in enumerate([(["hdrop %d" % h], ["a/b/c", "a/d"]), (["hflush %d" % h, "hdrop %d" % h], ["a", "a/b"]),
+                                            (["hdrop %d" % h], ["a/b"])]):
+            if tier == "quick" and cname == "ovlstale" and i == 1:
+                continue
+            threads = [first] + [["createdirall " + vfx.ps(target, q)] for q in paths]
+            p = conclib.Prog("c17%s%d" % (cname, i), cfg, setup, threads, mode)
+            p.paths, p.cname = paths, cname
+            progs.append(p)
     return progs
 
 
@@ -78,7 +97,8 @@ RULE = ("2-4 threads calling create_dir_all on path pairs/triples of depth 1-4 t
         "(depth-first over the scheduling choices at the verif-hooks yield points; capped for the overlay, whose create_dir "
         "takes the lock ~15 times; on the overlay after a removal of the common ancestor, and after removals of the two "
         "sibling directories that the threads re-create - deletion markers present, sharing one bookkeeping directory - all "
-        "schedules with at most 2 preemptions) and a sample is replayed on the Coq interleaved semantics; on PhysicalFS and AltrootFS over "
+        "schedules with at most 2 preemptions; the same while another thread flushes / drops a write handle that outlived its "
+        "(removed) file of the same name) and a sample is replayed on the Coq interleaved semantics; on PhysicalFS and AltrootFS over "
         "it free-running OS threads are started behind a barrier for 300 (quick) / 5000 (thorough) rounds; oracle: every "
         "thread returns Ok and afterwards every requested path and each ancestor is a directory; the ASYNC port: concurrent tasks "
         "calling create_dir_all through the async API on AsyncMemoryFS, altroot and overlay (after removals of a directory, of a "
@@ -147,7 +167,7 @@ def run_and_compare(progs, tier):
     aprogs = gen_async_progs(tier)
     explored.update(conclib.explore(aprogs, "c17a", flag="--aconc"))
     progs = progs + aprogs
-    replayable = [p for p in progs if p.cname in ("mem", "alt", "ovl", "ovlrm", "ovlrm2", "ovlrm3", "ovlrmf")]
+    replayable = [p for p in progs if p.cname in ("mem", "alt", "ovl", "ovlrm", "ovlrm2", "ovlrm3", "ovlrmf", "memstale", "altstale", "ovlstale")]
     model, nreplayed = conclib.replay_model(replayable, {p.name: explored[p.name] for p in replayable}, "c17",
                                             limit_per_prog=150)
     dis = []
